@@ -19,6 +19,7 @@ import (
 	"sort"
 	"strings"
 
+	"github.com/hyperledger/aries-framework-go/component/kmscrypto/doc/jose"
 	"github.com/hyperledger/aries-framework-go/component/kmscrypto/doc/jose/jwk/jwksupport"
 	afjwt "github.com/hyperledger/aries-framework-go/component/models/jwt"
 	"github.com/hyperledger/aries-framework-go/component/models/sdjwt/common"
@@ -282,17 +283,27 @@ func c18Run(input string) string {
 	iv, _ := afjwt.NewEd25519Verifier(c18IssuerPub)
 	vopts = append(vopts, verifier.WithSignatureVerifier(iv))
 	if c.HB > 0 {
-		vopts = append(vopts, verifier.WithHolderVerificationRequired(true),
-			verifier.WithExpectedNonceForHolderVerification("nonce-1"),
-			verifier.WithExpectedAudienceForHolderVerification("https://verifier.example"))
+		// hb: 1 right | 2 wrong nonce | 3 wrong audience | 4 required but missing | 5 wrong key |
+		//     6 verifier expects ONLY the audience, binding made for another audience |
+		//     7 verifier expects ONLY the nonce, binding carries another nonce | 8 only audience expected, right one
+		vopts = append(vopts, verifier.WithHolderVerificationRequired(true))
+		if c.HB != 6 && c.HB != 8 {
+			vopts = append(vopts, verifier.WithExpectedNonceForHolderVerification("nonce-1"))
+		}
+		if c.HB != 7 {
+			vopts = append(vopts, verifier.WithExpectedAudienceForHolderVerification("https://verifier.example"))
+		}
 		info := &holder.BindingInfo{
 			Payload: holder.BindingPayload{Nonce: "nonce-1", Audience: "https://verifier.example"},
 			Signer:  afjwt.NewEd25519Signer(c18HolderPriv),
 		}
+		if c.V == 5 {
+			info.Headers = jose.Headers{"typ": "kb+jwt"} // key binding JWT of the v5 drafts
+		}
 		switch c.HB {
-		case 2:
+		case 2, 7:
 			info.Payload.Nonce = "other-nonce"
-		case 3:
+		case 3, 6:
 			info.Payload.Audience = "https://other.example"
 		case 5:
 			info.Signer = afjwt.NewEd25519Signer(c18OtherPriv)
@@ -406,7 +417,7 @@ func c18Gen(r *Rng, tier string) []string {
 		if r.N(2) == 0 {
 			c.V = 5
 		}
-		c.Claims = c18GenObject(r, 2, true, 2+r.N(4))
+		c.Claims = c18GenObject(r, 2+r.N(2), true, 2+r.N(4))
 		c.St = r.N(2) == 0
 		var all, objs []string
 		c18Paths("", c.Claims, &all, false)
@@ -445,7 +456,7 @@ func c18Gen(r *Rng, tier string) []string {
 			c.Tamper = "alter"
 		}
 		if r.N(4) == 0 {
-			c.HB = 1 + r.N(5)
+			c.HB = 1 + r.N(8)
 		}
 		b, _ := json.Marshal(c)
 		out = append(out, string(b))
